@@ -1,1 +1,41 @@
-(* C10 stub: to be written *)
+(* C10 — Nesting, '*' grouping and '@' combination equal sequential application.
+   Only statements, each closed by [exact], followed by Print Assumptions. *)
+From Coq Require Import List ZArith QArith.
+From EPG Require Import Scalar QI State Ops Views Diff Combine CombineProofs.
+Import ListNotations.
+
+(* (1) a sequence gives the same state whether written flat, as arbitrarily nested lists, or grouped
+   with '*' into multi-operators *)
+Theorem C10_simulate_nested_eq_flat (S : ScalOps) (t : seqtree S) (s : sm S) :
+  run_tree t s = run (flatten t) s.
+Proof. exact (simulate_nested_eq_flat S t s). Qed.
+Print Assumptions C10_simulate_nested_eq_flat.
+
+Theorem C10_regrouping_immaterial (S : ScalOps) (t t' : seqtree S) (s : sm S) :
+  flatten t = flatten t' -> run_tree t s = run_tree t' s.
+Proof. exact (regrouping_immaterial S t t' s). Qed.
+Print Assumptions C10_regrouping_immaterial.
+
+(* (2) a multi-operator reports the summed duration and the summed shift count of its members *)
+Theorem C10_multi_duration (S : ScalOps) (t : seqtree S) : (tree_duration S t == sumQ (leaves S t))%Q.
+Proof. exact (multi_duration S t). Qed.
+Theorem C10_multi_nshift (S : ScalOps) (t : seqtree S) : tree_nshift S t = sumN (leaves S t).
+Proof. exact (multi_nshift S t). Qed.
+Print Assumptions C10_multi_duration.
+Print Assumptions C10_multi_nshift.
+
+(* (3) whenever '@' accepts two scalar/matrix operators (scalar@scalar, matrix@matrix, matrix@scalar,
+   scalar@matrix, with or without recovery terms) the combined operator acts on any state matrix
+   exactly as the operands applied in order *)
+Theorem C10_combine_apply_states (S : ScalOps) (L : ScalLaws S) (l1 l2 lc : lin S) (s : sm S) (n : nat) :
+  combine_lin l1 l2 = Some lc -> shaped S s n -> apply_lin lc s = apply_lin l2 (apply_lin l1 s).
+Proof. exact (combine_apply_states S L l1 l2 lc s n). Qed.
+Print Assumptions C10_combine_apply_states.
+
+(* non-vacuity: '@' accepts a scalar and a matrix operand on the executed instance *)
+Example C10_nonvacuous :
+  exists lc, combine_lin (@LScalar QIops (@mk3 QIops (qr 1 2) (qr 1 2) (qr 1 1)) (Some (@mk3 QIops (qr 0 1) (qr 0 1) (qr 1 2))))
+                         (@LMatrix QIops (@mkM QIops (@mk3 QIops (qr 1 2) (qr 1 2) (qi 0 1 (-1) 1))
+                                                    (@mk3 QIops (qr 1 2) (qr 1 2) (qi 0 1 1 1))
+                                                    (@mk3 QIops (qi 0 1 (-1) 2) (qi 0 1 1 2) (qr 0 1))) None) = Some lc.
+Proof. eexists. reflexivity. Qed.
